@@ -1,17 +1,75 @@
 package main
 
 import (
+	"flag"
 	"fmt"
-	"golang.org/x/tools/go/packages"
+	"os"
+	"sort"
+	"strings"
+	"time"
+
 	"golang.org/x/tools/go/ssa"
-	"golang.org/x/tools/go/ssa/ssautil"
 )
 
 func main() {
-	cfg := &packages.Config{Mode: packages.LoadAllSyntax, Dir: "/repo", BuildFlags: []string{"-tags=verif"}}
-	pkgs, err := packages.Load(cfg, "./...")
-	if err != nil { panic(err) }
-	prog, spkgs := ssautil.AllPackages(pkgs, ssa.GlobalDebug)
-	prog.Build()
-	fmt.Println(len(pkgs), len(spkgs))
+	if len(os.Args) < 2 {
+		fmt.Fprintln(os.Stderr, "usage: bmcvc <verify|check|ssa> ...")
+		os.Exit(2)
+	}
+	cmd := os.Args[1]
+	fs := flag.NewFlagSet(cmd, flag.ExitOnError)
+	repo := fs.String("repo", "/repo", "repository working tree")
+	contracts := fs.String("contracts", "/verif/contracts", "contract files")
+	work := fs.String("work", "/verif/work", "scratch directory for queries")
+	timeout := fs.Duration("timeout", 10*time.Second, "per-obligation solver timeout")
+	tier := fs.String("tier", "quick", "quick|thorough")
+	keep := fs.Bool("keep", false, "keep SMT queries")
+	verbose := fs.Bool("v", false, "verbose")
+	fs.Parse(os.Args[2:])
+	keepQueries = *keep
+	initSolver(*work, 16)
+	switch cmd {
+	case "ssa":
+		w, err := loadWorld(*repo, *contracts)
+		if err != nil {
+			fmt.Fprintln(os.Stderr, err)
+			os.Exit(2)
+		}
+		for f := range w.AllFuncs {
+			for _, pat := range fs.Args() {
+				if strings.Contains(f.String(), pat) {
+					f.WriteTo(os.Stdout)
+				}
+			}
+		}
+	case "verify":
+		w, err := loadWorld(*repo, *contracts)
+		if err != nil {
+			fmt.Fprintln(os.Stderr, err)
+			os.Exit(2)
+		}
+		var fns []*ssa.Function
+		for f := range w.AllFuncs {
+			for _, pat := range fs.Args() {
+				if strings.Contains(f.String(), pat) && f.Blocks != nil && f.Pkg != nil && strings.HasPrefix(f.Pkg.Pkg.Path(), modPath) && !strings.Contains(f.Pkg.Pkg.Path(), "/cmd/") {
+					fns = append(fns, f)
+				}
+			}
+		}
+		sort.Slice(fns, func(i, j int) bool { return fns[i].String() < fns[j].String() })
+		bad := 0
+		for _, f := range fns {
+			r := verifyFunction(w, f, *timeout, *tier == "thorough")
+			printFnResult(r, *verbose)
+			bad += r.NotDischarged
+		}
+		if bad > 0 {
+			os.Exit(1)
+		}
+	case "check":
+		os.Exit(runCheck(*repo, *contracts, fs.Args(), *tier, *timeout, *verbose))
+	default:
+		fmt.Fprintln(os.Stderr, "unknown command", cmd)
+		os.Exit(2)
+	}
 }
